@@ -7,7 +7,7 @@ import tempfile
 import numpy as np
 from hypothesis import strategies as st
 
-from vlib.harness import Machine, Sub
+from vlib.harness import Enumerate, Machine, Sub
 
 PROPERTY = "C19"
 RULE = (
@@ -516,6 +516,16 @@ def many_strategy(draw, tier):
             "sel": draw(st.lists(st.integers(0, 10 ** 6), min_size=6, max_size=6))}
 
 
+def many_cases(tier):
+    import os
+    import random
+
+    rnd = random.Random(int(os.environ.get("VERIF_SEED", "1") or 1) * 7919 + 19)
+    for n in ([257, 300, 520] if tier == "quick" else [257, 258, 300, 511, 512, 513, 520, 1030]):
+        for nested in (False, True):
+            yield {"n": n, "nested": nested, "sel": [rnd.randrange(10 ** 6) for _ in range(6)]}
+
+
 def run_many(case, ctx):
     from swcgeom.core import Population
 
@@ -581,7 +591,7 @@ def run_many(case, ctx):
 
 
 SUBCHECKS = [
-    Sub("many_files", many_strategy, run_many, quick=12, thorough=60, shards_quick=6, shards_thorough=12, required={"files:300": 2}),
+    Enumerate("many_files", many_cases, run_many, shards_quick=6, shards_thorough=16, required={"files:300": 2, "files:257": 2}, exhaustive=False),
     Machine("containers", init_strategy,
             {"population": INT, "populations": SEL, "ps_get": SEL, "ps_iter": INT, "to_population": INT, "chain": SEL,
              "get": SEL, "slice": lambda tier: st.one_of(
